@@ -5,7 +5,7 @@ from scipy.spatial.transform import Rotation as R
 from mc.checks.common import *
 from mc.engine.choices import Explorer
 from mc.alphabet import geom as G
-from mc.ref.geom import kabsch, cconst, ref_match, rigid_residual, lattice_residual, hints_valid, resolve_hints, perpendicular_widths
+from mc.ref.geom import kabsch, cconst, cconst_hints, ref_match, rigid_residual, lattice_residual, hints_valid, resolve_hints, perpendicular_widths
 from mofun import find_pattern_in_structure
 
 _EX = {}
